@@ -6,6 +6,7 @@ import re
 from .. import editcorr as ec
 from .. import editprops as ep
 from .. import framework as fw
+from ..gen import docs
 from ..oracle import cstread
 
 GEN_TABLES = ()
@@ -85,7 +86,32 @@ def check_op(ctx, h, r):
         existing = ep.tree_get(tb, names)
         if r.op[0] == "set":
             if is_ident_leaf(existing):
-                ctx.count("skipped:reference")
+                # the value at the path is a name: which binding gets rewritten is C11's question; C05's is
+                # that afterwards the path HOLDS the value: what its expression denotes under Nix scoping
+                # in the OUTPUT (followed with the CST resolver) is the requested value
+                from . import c11
+
+                b, ref = c11.ref_of_path(out, names)
+                want_v = ep.value_as_tree(r.op[2])
+                if b is None or want_v is None:
+                    ctx.count("skipped:reference")
+                    return
+                if ref is None:
+                    val = b.child_by_field_name("expression")
+                else:
+                    res = c11.resolve(ref, ref.text.decode())
+                    if res[0] != "binding":
+                        ctx.count("skipped:reference-" + res[0])
+                        return
+                    val = res[1].child_by_field_name("expression")
+                ctx.count("reference-followed")
+                got_v = ep.value_as_tree(val.text.decode())
+                if got_v != want_v:
+                    ctx.fail({"clause": "reference-holds-value", **base_key, "binder": c11.binder_kind(res) if ref is not None else "path",
+                              "separated": c11.separated(res, out) if ref is not None else False},
+                             {**inp, "output": out},
+                             f"{r.op!r} on {r.before_text!r} succeeded, but in the output {'.'.join(names)} denotes "
+                             f"{val.text.decode()!r}, not the requested value: {out!r}")
                 return
             vt = ep.value_as_tree(r.op[2])
             want = ep.spec_set(tb, names, vt)
@@ -170,7 +196,7 @@ def syntax_cause(h, r) -> str:
     """why the output does not parse, as far as the document's shape tells"""
     snap = r.snap_after
     has_layers = isinstance(snap, list) and snap and snap[0] == "doc" and (snap[5] or snap[10])
-    if has_layers and h.info.get("wrapper") in ("call", "call-select", "lambda-call"):
+    if has_layers and h.info.get("wrapper") in docs.CALL_WRAPPERS:
         return "let-in-call-argument"
     return "other"
 
